@@ -17,11 +17,17 @@ TClauses(c) ==
      \cup F("syntax_is_parse_error", synbad /\ (c.parse.cls # "parse_error" \/ c.run.cls # "parse_error"))
      \cup F("has_position", (c.parse.cls = "parse_error" /\ ~c.parse.haspos) \/ (c.run.cls = "parse_error" /\ ~c.run.haspos))
      \cup F("wellformed_not_syntax_error", ~synbad /\ Outcome(toks).v = "ok" /\ c.parse.cls = "parse_error")
+\* trigger predicates for known findings (evaluated here, never in the harness)
+TTriggers(c) ==
+  LET ts == Lex(c.text) IN
+  \* a register statement whose size is a literal of more than 9 digits (no machine can hold its qubits)
+  F("HugeRegisterLiteral", \E j \in 1..(Len(ts) - 3) :
+       ts[j].t = "register" /\ ts[j + 1].t = "ID" /\ ts[j + 2].t = "[" /\ ts[j + 3].t = "INT" /\ MatchInt(c.text, ts[j + 3].p) > 9)
 VARIABLE i
 Init == i = 1
 Case == /\ i <= Len(Cases)
         /\ i' = i + 1
-        /\ LET cl == TClauses(Cases[i]) IN cl = {} \/ PrintT(<<"V", Cases[i].id, cl, {}>>)
+        /\ LET cl == TClauses(Cases[i]) IN cl = {} \/ PrintT(<<"V", Cases[i].id, cl, TTriggers(Cases[i])>>)
 Done == i = Len(Cases) + 1 /\ i' = i + 1 /\ PrintT(<<"DONE", i - 1>>)
 Next == Case \/ Done
 Spec == Init /\ [][Next]_i
